@@ -305,3 +305,19 @@ register(Contract(
     returns=Returns(ci_returns),
     prop=['C05', 'C06']))
 C.unit('C06', '_util:check_input')
+
+
+from npvc import ttype as _TT
+
+
+def _ci_tt(env, p, res):
+  t = _TT.tt_of(p, env['input_data'])
+  if isinstance(res, VTuple):
+    _TT.set_tt(p, res.items[0], t)
+    _TT.set_tt(p, res.items[1], _TT.tt_of(p, env['y']))
+  else:
+    _TT.set_tt(p, res, t)
+
+
+for _t in ('_util:check_input', '_util:check_input_tuples', '_util:check_input_classic'):
+  REGISTRY[_t].tt_rule = _ci_tt
